@@ -555,8 +555,10 @@ def _try_replay(u, ctx, h, target, hyps, neg, robust, timeout_ms, is_exception=N
 
 def run_unit(u, tier="quick", seed=0, query_timeout_ms=None, log=print):
     """explore + discharge + replay.  returns a JSON-able dict"""
+    import sys
     import warnings
     warnings.simplefilter("ignore")
+    sys.setrecursionlimit(max(sys.getrecursionlimit(), 100000))
     t0 = time.time()
     opts = u.opts
     qto = query_timeout_ms or (opts.get("timeout_ms", 20000) if tier == "quick" else opts.get("thorough_timeout_ms", 120000))
